@@ -245,3 +245,47 @@ Theorem C24_ignore_master_leaves_master : forall src dst master ov sel,
   snd (fst (fst (merge_inter src dst master true ov sel))) = master.
 Proof. exact merge_inter_master_ignored. Qed.
 Print Assumptions C24_ignore_master_leaves_master.
+
+(* ---- faithful behaviour on the two known-finding classes -------------------------------- *)
+
+(* C24-git-ghost-tag-reported-not-stored: "every tag only in the source is added" is FALSE of a git
+   destination when the revision is not a commit of the repository: the tag is reported in updates
+   but LocalGitTagDict._set_tag_dict suppresses GhostTagsNotSupported and nothing is stored *)
+Theorem C24_git_only_in_source_added_refuted :
+  exists (src dst : tagdict) (cs : list bytes) (n v : bytes),
+    dict_get bytes_eqb src n = Some v /\ dict_get bytes_eqb dst n = None /\
+    dict_get bytes_eqb (upd bytes bytes (reconcileB src dst false None)) n = Some v /\
+    exists r', stored (DGit cs) (res bytes bytes (reconcileB src dst false None)) = Some r'
+               /\ dict_get bytes_eqb r' n = None.
+Proof.
+  exists [([103], [120])]%N, [], [[99]]%N, [103]%N, [120]%N.
+  repeat split; try reflexivity. eexists; split; reflexivity.
+Qed.
+Print Assumptions C24_git_only_in_source_added_refuted.
+
+(* guard (executable): when every revision id of the dict is a commit, git keeps the dict as it is;
+   in general it keeps exactly the entries whose revision id is a commit *)
+Theorem C24_git_store_guarded : forall cs d,
+  forallb (git_keeps cs) d = true -> stored (DGit cs) d = Some d.
+Proof. exact git_store_guarded. Qed.
+Print Assumptions C24_git_store_guarded.
+
+Theorem C24_git_store_keeps_exactly_the_commits : forall cs d d' kv,
+  stored (DGit cs) d = Some d' -> (In kv d' <-> In kv d /\ git_keeps cs kv = true).
+Proof. exact git_store_entries. Qed.
+Print Assumptions C24_git_store_keeps_exactly_the_commits.
+
+(* C24-memorytags-merge-ignores-master: with a MemoryTags source the master of a bound destination
+   is never updated ("master updated too" is FALSE of MemoryTags.merge_to) *)
+Theorem C24_memorytags_master_updated_refuted :
+  exists (src dst m : tagdict) (n v : bytes),
+    dict_get bytes_eqb src n = Some v /\ dict_get bytes_eqb m n = None /\
+    dict_get bytes_eqb (fst (fst (fst (merge_memsrc src dst (Some m) false None)))) n = Some v /\
+    snd (fst (fst (merge_memsrc src dst (Some m) false None))) = Some m.
+Proof. exists [([118], [49])]%N, [], [], [118]%N, [49]%N. repeat split; reflexivity. Qed.
+Print Assumptions C24_memorytags_master_updated_refuted.
+
+Theorem C24_memorytags_master_untouched : forall src dst master ov sel,
+  snd (fst (fst (merge_memsrc src dst master ov sel))) = master.
+Proof. exact merge_memsrc_master_untouched. Qed.
+Print Assumptions C24_memorytags_master_untouched.
